@@ -19,6 +19,9 @@
 import Gama.Lemmas.FullState
 import Gama.Lemmas.AdjState
 import Gama.Lemmas.NetState
+import Gama.Lemmas.FullHist
+import Gama.Lemmas.AdjHist
+import Gama.Lemmas.AdjBuf
 namespace Gama.Props.C04
 open Gama Gama.C04 Gama.C04.Full Gama.C04.AdjM Gama.C04.Net
 
@@ -70,7 +73,7 @@ example :
     CfgOk .chol inp true none ∧ (∀ o ∈ ops, o.Ok inp)
     ∧ (Full.step .chol inp (Full.run .chol inp (Full.init true none) ops) (.qxx 1 5)).2
         = .qxx 1 5 (some [4, 5]) (.reg [4, 5]) := by
-  refine ⟨⟨by decide, by decide, by decide, by decide, by decide⟩, by decide, by decide⟩
+  refine ⟨⟨by decide, by decide, by decide, (by intro hk hu; first | exact Or.inl rfl | exact absurd hk (by decide) | exact absurd hu (by decide)), by decide⟩, by decide, by decide⟩
 
 /-- non-vacuity (gso) -/
 example :
@@ -79,7 +82,7 @@ example :
     CfgOk .gso inp false (some [1, 3]) ∧ (∀ o ∈ ops, o.Ok inp)
     ∧ (Full.step .gso inp (Full.run .gso inp (Full.init false (some [1, 3])) ops) .unknowns).2
         = .x (.reg [1, 2, 3, 4]) := by
-  refine ⟨⟨by decide, by decide, by decide, by decide, by decide⟩, by decide, by decide⟩
+  refine ⟨⟨by decide, by decide, by decide, (by intro hk hu; first | exact Or.inl rfl | exact absurd hk (by decide) | exact absurd hu (by decide)), by decide⟩, by decide, by decide⟩
 
 /-- outside the quantifier (a list that does not resolve the defect): both classes set
     `is_solved = true` before they throw, so the second identical query does not throw but returns
@@ -200,12 +203,137 @@ example :
     ∧ (astep inp (arun inp (ainit .env) ops) (.qbb 1 2)).2
         = .qbb .chol [.full (.qxx 1 1 (some [1, 2]) (.reg [1, 2])), .full (.qxx 2 1 (some [1, 2]) (.reg [1, 2])),
                       .full (.qxx 1 2 (some [1, 2]) (.reg [1, 2])), .full (.qxx 2 2 (some [1, 2]) (.reg [1, 2]))] := by
-  refine ⟨⟨fun i h => h, ?_, by decide, ⟨by decide, by decide, by decide, by decide, by decide⟩,
-           ⟨by decide, by decide, by decide, by decide, by decide⟩, ⟨by decide, by decide, by decide⟩⟩,
+  refine ⟨⟨fun i h => h, ?_, by decide, ⟨by decide, by decide, by decide, (by intro hk hu; first | exact Or.inl rfl | exact absurd hk (by decide) | exact absurd hu (by decide)), by decide⟩,
+           ⟨by decide, by decide, by decide, (by intro hk hu; first | exact Or.inl rfl | exact absurd hk (by decide) | exact absurd hu (by decide)), by decide⟩, ⟨by decide, by decide, by decide⟩⟩,
           by decide, by decide⟩
   intro i c hc
   simp at hc
   omega
+
+
+/-! ### across resets to OTHER inputs (round 3)
+
+The current input is part of the state; `resetNew inp'` / `setData inp'` hand the object another
+problem (any size, regular or singular).  What survives physically is state of the models
+(Model/FullHist.lean, Model/AdjHist.lean).  Quantifier as before: the regularisation the object is
+configured with resolves the defect of every input it is given (`ValidF`, `ValidS`, `AInput.Ok`). -/
+
+/-- **chol, gso: history freedom across inputs.**  After any history including `reset(A', b')` with other
+    inputs every answer is that of a brand-new object given the CURRENT input and configuration.  For chol
+    the list 1..N' that `solve()` built for an earlier size stays in `minx_i`; the invariant says so
+    (`Inv.all`) and the proof uses the code's `minx_n != N` test that rebuilds it. -/
+theorem full_history_free_across_inputs (k : Kind) (inp0 : Full.Input) (ua : Bool) (l0 : Option (List Nat))
+    (h0 : CfgOk k inp0 ua l0) (ops : List Full.HOp) (hops : ValidF k ⟨inp0, Full.init ua l0⟩ ops)
+    (op : Full.Op) (hop : op.Ok (hfrun k ⟨inp0, Full.init ua l0⟩ ops).inp) :
+    let h := hfrun k ⟨inp0, Full.init ua l0⟩ ops
+    (hfstep k h (.q op)).2 = Full.fresh k h.inp h.s.useAll h.s.list op :=
+  Full.step_eq_fresh (hfrun_inv (h := ⟨inp0, Full.init ua l0⟩) h0 hops) op hop
+
+theorem full_invariant_across_inputs (k : Kind) (inp0 : Full.Input) (ua : Bool) (l0 : Option (List Nat))
+    (h0 : CfgOk k inp0 ua l0) (ops : List Full.HOp) (hops : ValidF k ⟨inp0, Full.init ua l0⟩ ops) :
+    let h := hfrun k ⟨inp0, Full.init ua l0⟩ ops
+    Full.Inv k h.inp h.s :=
+  hfrun_inv (h := ⟨inp0, Full.init ua l0⟩) h0 hops
+
+/-- **svd: history freedom across inputs.**  `minV` (the saved plain V) and `defect` of an earlier input
+    survive `reset`; the invariant claims them only under `decomposed`, which `svd.reset(A)` clears. -/
+theorem svd_history_free_across_inputs (inp0 : Full.Input) (sub : Bool) (l0 : Option (List Nat))
+    (h0 : SCfgOk inp0 sub l0) (ops : List Full.HOp) (hops : ValidS ⟨inp0, Full.sinit sub l0⟩ ops)
+    (op : Full.Op) (hop : op.Ok (hsrun ⟨inp0, Full.sinit sub l0⟩ ops).inp) :
+    let h := hsrun ⟨inp0, Full.sinit sub l0⟩ ops
+    (hsstep h (.q op)).2 = Full.sfresh h.inp h.s.sub h.s.list op :=
+  Full.sstep_eq_fresh (hsrun_inv (h := ⟨inp0, Full.sinit sub l0⟩) h0 hops) op hop
+
+/-- non-vacuity (chol): singular 5-unknown system, "all" materialised as 1..5, reset to a singular
+    3-unknown system: the list is rebuilt as 1..3 (`minx_n != N`), then to a regular 4-unknown one -/
+example :
+    let a : Full.Input := { n := 5, nullity := 2, resolves := fun l => decide (2 ≤ l.length) }
+    let b : Full.Input := { n := 3, nullity := 1, resolves := fun l => decide (1 ≤ l.length) }
+    let c : Full.Input := { n := 4, nullity := 0, resolves := fun _ => true }
+    let ops := [Full.HOp.q (.qxx 1 5), .resetNew b, .q .unknowns, .q (.minx [2, 3]), .resetNew c, .q .defect, .resetNew b]
+    CfgOk .chol a true none ∧ ValidF .chol ⟨a, Full.init true none⟩ ops
+    ∧ (hfrun .chol ⟨a, Full.init true none⟩ [.q (.qxx 1 5), .resetNew b]).s.list = some [1, 2, 3, 4, 5]
+    ∧ (hfstep .chol (hfrun .chol ⟨a, Full.init true none⟩ [.q (.qxx 1 5), .resetNew b]) (.q (.qxx 1 2))).2
+        = .qxx 1 2 (some [1, 2, 3]) (.reg [1, 2, 3])
+    ∧ (hfstep .chol (hfrun .chol ⟨a, Full.init true none⟩ ops) (.q (.qxx 1 2))).2
+        = .qxx 1 2 (some [2, 3]) (.reg [2, 3]) := by
+  refine ⟨⟨by decide, by decide, by decide, (by intro hk hu; first | exact Or.inl rfl | exact absurd hk (by decide) | exact absurd hu (by decide)), by decide⟩, ?_, by decide, by decide, by decide⟩
+  simp only [ValidF, Full.HOp.OkF, Full.Op.Ok, and_true]
+  decide
+
+/-- **The flag-clearing steps are needed (witnesses).**  chol/gso: a `reset` that leaves `is_solved`
+    set answers `x` from the vector of the OLD data; svd: a `reset` without `svd.reset(A)` leaves
+    `decomposed` set and `defect()` returns the old decomposition's defect (own mutation M3). -/
+example :
+    let a : Full.Input := { n := 4, nullity := 1, resolves := fun l => decide (1 ≤ l.length) }
+    let b : Full.Input := { n := 4, nullity := 0, resolves := fun _ => true }
+    (hfstepWith fresetKeep .gso (hfrunWith fresetKeep .gso ⟨a, Full.init true none⟩ [.q .unknowns, .resetNew b]) (.q .unknowns)).2
+        = .stale "x"
+    ∧ (hfstep .gso (hfrun .gso ⟨a, Full.init true none⟩ [.q .unknowns, .resetNew b]) (.q .unknowns)).2 = .x .plain
+    ∧ (hsstepWith sresetKeep (hsrunWith sresetKeep ⟨a, Full.sinit false none⟩ [.q .defect, .resetNew b]) (.q .defect)).2
+        = .stale "defect"
+    ∧ (hsstep (hsrun ⟨a, Full.sinit false none⟩ [.q .defect, .resetNew b]) (.q .defect)).2 = .defect := by decide
+
+/-- **`Adj`: history freedom across inputs, with the work matrices.**  After any history of queries,
+    `set_algorithm`, `set(same or other data)` every answer is the one a brand-new `Adj` with the current
+    algorithm and the CURRENT data gives, AND the full-matrix solver that produced it was given the rows of
+    the current data copied onto a ZEROED `A_dot` (`some (.filled id .zero)`; `none` for the envelope) —
+    never onto homogenisation fill-in or non-zeros of an earlier run.  The proof uses the code's
+    `A_dot.set_zero()` (`fillCode`). -/
+theorem adj_history_free_across_inputs (inp0 : AInput) (hok : inp0.Ok) (a0 : AdjM.Alg) (ops : List HAOp)
+    (hops : ∀ o ∈ ops, o.Valid) (op : AOp) (hop : op.Valid) :
+    let h := harun (hainit inp0 a0) ops
+    (hastep h (.q op)).2 = hafresh h.inp h.s.alg op
+    ∧ (hastep h (.q op)).2 = (aspec h.inp h.s.alg op, if isQuery op then expectedIn h.inp h.s.alg else none) :=
+  ⟨hastep_eq_fresh (harun_inv (hainv_init hok a0) hops) op hop,
+   hastep_spec (harun_inv (hainv_init hok a0) hops) op hop⟩
+
+theorem adj_invariant_across_inputs (inp0 : AInput) (hok : inp0.Ok) (a0 : AdjM.Alg) (ops : List HAOp)
+    (hops : ∀ o ∈ ops, o.Valid) : HAInv (harun (hainit inp0 a0) ops) :=
+  harun_inv (hainv_init hok a0) hops
+
+
+/-- **Numeric meaning (`answer_denotes`, class `Adj`).**  `W d` is the numeric problem with identity `d`.
+    After any history, the numeric `Answer` behind a query's answer — for a full-matrix algorithm: the
+    solver model run on the pair `(A_dot, b_dot)` that the provenance of `A_dot` DENOTES (copy loop over
+    whatever the matrix held, in-place homogenisation, Model/AdjBuf.lean); for the envelope: the sparse
+    branch — is the answer of the numeric model of a fresh `Adj` (`Gama.Ls.adjSolve`) on the CURRENT
+    problem.  Uses `copyRows_zeros`: on a zeroed matrix the copy loop yields the dense design matrix. -/
+theorem adj_answer_denotes {K : Type} [Scalar K] (W : Nat → Ls.Problem K) (inp0 : AInput) (hok : inp0.Ok)
+    (a0 : AdjM.Alg) (ops : List HAOp) (hops : ∀ o ∈ ops, o.Valid) (op : AOp) (hop : op.Valid) (hq : op.IsQuery) :
+    let h := harun (hainit inp0 a0) ops
+    adjNum W h.s.alg h.inp.id (hastep h (.q op)).2.2 = Ls.adjSolve (lsAlg h.s.alg) (W h.inp.id) := by
+  intro h
+  rw [hastep_spec (harun_inv (hainv_init hok a0) hops) op hop]
+  simp only [haspec, (isQuery_iff op).mpr hq, if_true]
+  exact adjNum_expected W h.inp h.s.alg
+
+/-- non-vacuity + **the zeroing step is needed (witness).**  Data sets 1 and 2 have the same shape.  With
+    the code (`fillCode`) the svd object created after `set(data 2)` is given `.filled 2 .zero`; with the
+    variant that zeroes `A_dot` only when the shape changes (`fillKeep`, seeded change C01-seed1) it is given
+    the rows of data 2 written over the homogenised matrix of data 1, and after `set_algorithm` on the same
+    data the rows of data 2 over its own homogenisation fill-in — not what a fresh `Adj` computes. -/
+example :
+    let fi : Full.Input := { n := 3, nullity := 0, resolves := fun _ => true }
+    let e : EnvInput := { n := 3, nullity := 0, invp := fun i => i, inEnv := fun _ _ => true,
+                          resolves := fun _ => true, qbbIn := fun _ _ => true }
+    let d1 : AInput := { env := { e with id := 1 }, chol := fi, gso := fi, svd := fi, minx := none, rows := fun _ => [1, 2],
+                         id := 1, m := 4, n := 3 }
+    let d2 : AInput := { d1 with env := { e with id := 2 }, id := 2 }
+    let ops := [HAOp.q .x, .setData d2, .q (.setAlg .svd)]
+    (hastep (harun (hainit d1 .gso) ops) (.q .x)).2.2 = some (.filled 2 .zero)
+    ∧ (hastepWith fillKeep (harunWith fillKeep (hainit d1 .gso) ops) (.q .x)).2.2 = some (.filled 2 (.filled 1 .zero))
+    ∧ (hastepWith fillKeep (harunWith fillKeep (hainit d1 .gso) [.q .x, .q (.setAlg .svd)]) (.q .x)).2.2
+        = some (.filled 1 (.filled 1 .zero))
+    ∧ (hafresh d2 .svd .x).2 = some (.filled 2 .zero) := by decide
+
+/-- what a leftover means numerically (exact arithmetic): the copy loop overwrites only the STORED elements,
+    so a structural zero of the new rows keeps the old number (here 7 at position (1,2)) -/
+example :
+    let p1 : Ls.Problem Rat := { m := 1, n := 2, rows := #[#[(1, 5), (2, 7)]], cov := #[], rhs := #[0], reg := .none }
+    let p2 : Ls.Problem Rat := { m := 1, n := 2, rows := #[#[(1, 3)]], cov := #[], rhs := #[0], reg := .none }
+    copyRows (copyRows (zeros 1 2) p1) p2 = #[#[3, 7]] ∧ copyRows (zeros 1 2) p2 = #[#[3, 0]] := by
+  constructor <;> rfl
 
 /-! ### `LocalNetwork`: the update cascade -/
 
